@@ -101,7 +101,7 @@ func (p Proposal) ProposalRoute() string {
 // (certifier) voting before stake (validator) voting.
 func (p Proposal) HasSecurityVoting() bool {
 	switch p.GetContent().(type) {
-	case *upgradetypes.SoftwareUpgradeProposal, *certtypes.CertifierUpdateProposal, shieldtypes.ShieldClaimProposal:
+	case *upgradetypes.SoftwareUpgradeProposal, *certtypes.CertifierUpdateProposal, *shieldtypes.ShieldClaimProposal:
 		return true
 	default:
 		return false
